@@ -813,7 +813,12 @@ impl KotoVm {
                     self.execution_state = ExecutionState::Suspended;
                     return Ok(value);
                 }
-                Err(error) => match self.pop_call_stack_on_error(error.clone(), true) {
+                Err(error) => match self.pop_call_stack_on_error(
+                    error.clone(),
+                    // Timeouts can't be caught, including those that are propagating from nested
+                    // calls into the VM (e.g. from iterator callbacks or overridden operators).
+                    !matches!(error.error, ErrorKind::Timeout(_)),
+                ) {
                     Ok((recover_register, ip)) => {
                         let catch_value = match error.error {
                             ErrorKind::KotoError { thrown_value, .. } => thrown_value,
